@@ -37,7 +37,10 @@ MANIFEST = {
     "note": "Modelled, not verified: pycparser/Parser.include (in-line sharing is observed only), the name search of the "
             "tables (C25), unique caching of derived types (C27), the compiler. Typedefs are covered through the types they "
             "name. Known finding C34/enum-ctype-per-generated-module: enum ctypes are rebuilt by every generated module "
-            "(identity holds in-line only).",
+            "(identity holds in-line only). The tables are assumed free of duplicate names (WF of the model); known finding "
+            "C34/anonymous-struct-name-collision-across-include: cparser numbers anonymous structs per parser, so an including "
+            "module's own '$n' meets an included '$n' in its generated table and may be realised with no fields "
+            "(deliberate stream in every run).",
     "technique": "Lean 4 proof (induction over include depth and include lists) + correspondence with in-line FFIs, generated "
                  "out-of-line modules and compiled API-mode modules",
 }
@@ -49,9 +52,13 @@ RULE = ("families of 2-4 cdefs; module i>0 includes 1-2 earlier modules in rando
         "(mode, topology, pair, kind)")
 ASSUMPTIONS = ["include depth of generated families far below the bound 100 (the bound itself is exercised in the Lean examples)"]
 FINDING = "C34/enum-ctype-per-generated-module"
+COLLISION = "C34/anonymous-struct-name-collision-across-include"
 CLASSES = {
     FINDING: lambda case: case.get("kind") in ("enum", "anon-enum") and case.get("mode") in ("abi", "api")
     and case.get("observed") == "distinct-ctype-objects",
+    # the including module's own n-th anonymous struct ("$n") when an included module also has a "$n"
+    COLLISION: lambda case: case.get("kind") == "anon-struct-collision" and case.get("mode") in ("abi", "api")
+    and case.get("collides") is True,
 }
 
 
@@ -463,6 +470,93 @@ def run_family(ctx, rng, fid, api, oracle_only=False):
                   "observed": type(e).__name__}, "building/using the family raised %r" % (e,))
 
 
+# ---------------------------------------------------------------------------- anonymous-struct numbering stream
+
+def collision_decls(tagname, P, n):
+    """n typedefs of pointers to anonymous structs (the parser names them $1..$n) + expected facts."""
+    L, facts = [], []
+    for q in range(n):
+        f1, f2 = "%sx%s_%d" % (tagname, P, q), "%sy%s_%d" % (tagname, P, q)
+        t1, t2 = [("int", "int", 8), ("long", "short", 16), ("char", "long", 16), ("short", "short", 4)][(q + len(tagname) + len(P)) % 4][:2], None
+        t1, t2, size = [("int", "int", 8), ("long", "short", 16), ("char", "long", 16), ("short", "short", 4)][(q + ord(tagname[0])) % 4]
+        name = "%sp%s_%d" % (tagname, P, q)
+        L.append("typedef struct { %s %s; %s %s; } *%s;" % (t1, f1, t2, f2, name))
+        facts.append((name, [f1, f2], size))
+    return L, facts
+
+
+def collision_stream(ctx, rng, fid, api):
+    """Deliberate stream: the included module B and the including module A both declare anonymous structs reached
+    through pointer typedefs; cparser numbers them per parser ($1, $2, ...), so A's own "$n" meets B's "$n" in A's
+    generated table when n <= number of B's anonymous structs."""
+    import cffi
+    nb, na = rng.randint(1, 2), rng.randint(1, 3)
+    P = "%d" % fid
+    declb, factsb = collision_decls("b", P, nb)
+    decla, factsa = collision_decls("a", P, na)
+    recipe = {"fid": fid, "stream": "collision", "cdef_b": "\n".join(declb) + "\n", "cdef_a": "\n".join(decla) + "\n",
+              "facts_a": factsa, "facts_b": factsb, "nb": nb}
+    ctx.count("collision-stream:nb=%d,na=%d" % (nb, na))
+
+    def mk(api_suffix=""):
+        fb = cffi.FFI()
+        fb.cdef(recipe["cdef_b"])
+        fa = cffi.FFI()
+        fa.include(fb)
+        fa.cdef(recipe["cdef_a"])
+        return fb, fa
+
+    def check(mode, ffa, ffb):
+        for owner, ff, facts in (("a", ffa, factsa), ("b-through-a", ffa, factsb), ("b", ffb, factsb)):
+            for q, (name, fields, size) in enumerate(facts):
+                collides = owner == "a" and q < nb
+                try:
+                    item = ff.typeof(name).item
+                    got = ([n for n, _ in item.fields], ff.sizeof(item))
+                except Exception as e:
+                    got = {"exc": type(e).__name__}
+                ctx.case((mode, "anon-struct-collision", owner, q, nb))
+                ctx.count("%s:anon-numbering:%s" % (mode, "colliding" if collides else "free"))
+                if got != (fields, size):
+                    ctx.fail({"mode": mode, "kind": "anon-struct-collision", "owner": owner, "name": name,
+                                          "collides": collides, "recipe": recipe, "observed": got, "expect": [fields, size]},
+                                    "%s: the struct behind %s (module %s) reads %r, declared %r" % (mode, name, owner, got, (fields, size)))
+
+    fb, fa = mk()
+    check("inline", fa, fb)
+    if ctx.scratch not in sys.path:
+        sys.path.insert(0, ctx.scratch)
+    nb_mod, na_mod = "_c34_colb_%s" % P, "_c34_cola_%s" % P
+    fb.set_source(nb_mod, None)
+    fa.set_source(na_mod, None)
+    G.quiet(lambda: fb.emit_python_code(os.path.join(ctx.scratch, nb_mod + ".py")))
+    G.quiet(lambda: fa.emit_python_code(os.path.join(ctx.scratch, na_mod + ".py")))
+    importlib.invalidate_caches()
+    mb, ma = importlib.import_module(nb_mod), importlib.import_module(na_mod)
+    check("abi", ma.ffi, mb.ffi)
+    if api:
+        fb, fa = mk()
+        fb.set_source(nb_mod + "_c", recipe["cdef_b"])
+        fa.set_source(na_mod + "_c", recipe["cdef_b"] + recipe["cdef_a"])
+        for f, nm in ((fb, nb_mod + "_c"), (fa, na_mod + "_c")):
+            cpath = os.path.join(ctx.scratch, nm + ".c")
+            G.quiet(lambda: f.emit_c_code(cpath))
+            common.compile_ext(cpath, ctx.scratch, nm)
+        importlib.invalidate_caches()
+        mb, ma = importlib.import_module(nb_mod + "_c"), importlib.import_module(na_mod + "_c")
+        check("api", ma.ffi, mb.ffi)
+
+
+def run_collision(ctx, rng, fid, api):
+    try:
+        collision_stream(ctx, rng, fid, api)
+    except InfraError:
+        raise
+    except Exception as e:
+        ctx.fail({"mode": "collision-stream", "kind": "build", "observed": type(e).__name__, "fid": fid},
+                 "the anonymous-struct stream raised %r" % (e,))
+
+
 def check_api_lib(ctx, fam, ffis, libs, recipe):
     """Functions, globals and constants of included modules are reachable through the including lib
     (deepest including module first: the intermediate libs have not cached anything yet)."""
@@ -519,6 +613,8 @@ def correspond(ctx):
     nf = ctx.n(6, 200)
     for fid in range(nf):
         run_family(ctx, ctx.rng, fid, api=(fid == 0) or (not ctx.quick and fid % 10 == 0))
+    for fid in range(ctx.n(3, 30)):
+        run_collision(ctx, ctx.rng, 9000 + fid, api=(fid == 0))
     flush_model(ctx)
 
 
@@ -531,6 +627,22 @@ def replay(ctx, obj):
     """Re-run the whole family of the case (oracle only) and report whether the same check still fails."""
     case = obj["case"]
     import random
+    if case.get("recipe", {}).get("stream") == "collision" or case.get("mode") == "collision-stream":
+        sub = common.Ctx(ctx.prop, ctx.tier, ctx.seed, ctx.scratch)
+        sub.classes, sub.open_findings = ctx.classes, []
+        r = case["recipe"]
+
+        class R(random.Random):
+            pass
+        # re-run the stream with the same numbers of anonymous structs
+        rr = random.Random(0)
+        seq = iter([r["nb"], len(r["facts_a"])])
+        rr.randint = lambda a, b: next(seq)
+        collision_stream(sub, rr, r["fid"], api=(case.get("mode") == "api"))
+        hits = [f for f in sub.failures if f["case"].get("name") == case.get("name") and f["case"].get("mode") == case.get("mode")]
+        for f in hits[:3]:
+            print(f["detail"])
+        return 1 if hits else 0
     fam = [dict(d, visible=set(d["visible"])) for d in case["recipe"]["family"]]
     sub = common.Ctx(ctx.prop, ctx.tier, ctx.seed, ctx.scratch)
     sub.classes, sub.open_findings = ctx.classes, ctx.open_findings
@@ -556,6 +668,21 @@ def replay(ctx, obj):
 def check_witness(ctx, finding):
     import cffi
     w = finding["witness"]
+    if finding["class"] == COLLISION:
+        if ctx.scratch not in sys.path:
+            sys.path.insert(0, ctx.scratch)
+        a = cffi.FFI()
+        a.cdef(w["cdef_a"])
+        b = cffi.FFI()
+        b.include(a)
+        b.cdef(w["cdef_b"])
+        a.set_source("_c34_wcol_a", None)
+        b.set_source("_c34_wcol_b", None)
+        G.quiet(lambda: a.emit_python_code(os.path.join(ctx.scratch, "_c34_wcol_a.py")))
+        G.quiet(lambda: b.emit_python_code(os.path.join(ctx.scratch, "_c34_wcol_b.py")))
+        importlib.invalidate_caches()
+        mb = importlib.import_module("_c34_wcol_b")
+        return [n for n, _ in mb.ffi.typeof(w["type"]).item.fields] != w["fields"]
     if ctx.scratch not in sys.path:
         sys.path.insert(0, ctx.scratch)
     a = cffi.FFI()
